@@ -863,10 +863,13 @@ def descriptor_rule(repo: Repo, rep, P: str):
         defs = single_defs(fn)
         sources: Dict[str, str] = {}          # loop target name -> the sequence its values come from
 
+        elem_of: Dict[str, ast.expr] = {}     # loop target name -> the iterable whose elements it holds
+
         def bind(target, it):
             it = resolve_names(it, defs)
             if isinstance(target, ast.Name):
                 sources[target.id] = norm(it)
+                elem_of[target.id] = it
             elif isinstance(target, ast.Tuple) and isinstance(it, ast.Call) and norm(it.func) == "zip" and len(it.args) == len(target.elts):
                 for t, a in zip(target.elts, it.args):
                     bind(t, a)
@@ -874,6 +877,10 @@ def descriptor_rule(repo: Repo, rep, P: str):
                 bind(target.elts[1], it.args[0])
         for lp in [n for n in ast.walk(fn) if isinstance(n, ast.For)]:
             bind(lp.target, lp.iter)
+        # a, b = row   where `row` holds the elements of zip(A, B)
+        for a_ in [n for n in ast.walk(fn) if isinstance(n, ast.Assign) and len(n.targets) == 1 and isinstance(n.targets[0], ast.Tuple)
+                   and isinstance(n.value, ast.Name) and n.value.id in elem_of]:
+            bind(a_.targets[0], elem_of[a_.value.id])
         stores = [n for n in ast.walk(fn) if isinstance(n, ast.Attribute) and isinstance(n.ctx, ast.Store) and n.attr in ("value_type", "default")]
         owners = {norm(n.value) for n in stores}
         if stores and all(isinstance(n.value, ast.Name) and sources.get(n.value.id) == f"{mparam}.user_defined" for n in stores):
